@@ -52,6 +52,83 @@ theorem self_concat {α : Type} [Inhabited α] (p : List Nat) (x : List α) (h :
     Perm.applyPerm (p.map fun k => p.getD k 0) x = Perm.applyPerm p (Perm.applyPerm p x) :=
   concat_composes p p x h h rfl hx
 
+def caStep (c : Array Nat) (a : Array Nat) (i : Nat) : Array Nat := a.setIfInBounds i (c.getD (a.getD i 0) 0)
+
+theorem caStep_size (c a : Array Nat) (i : Nat) : (caStep c a i).size = a.size := by
+  simp [caStep]
+
+theorem caStep_getD (c a : Array Nat) (i j : Nat) (hi : i < a.size) :
+    (caStep c a i).getD j 0 = if j = i then c.getD (a.getD i 0) 0 else a.getD j 0 := by
+  unfold caStep
+  simp only [Array.getD_eq_getD_getElem?, Array.getElem?_setIfInBounds]
+  by_cases h : i = j
+  · subst h; simp [hi]
+  · have h' : ¬ j = i := fun e => h e.symm
+    simp [h, h']
+
+/-- the aliased in-place loop after `k` steps: entries below `k` are composed, the rest untouched -/
+theorem concatAliased_loop (p : List Nat) : ∀ k, k ≤ p.length →
+    ((List.range k).foldl (caStep p.toArray) p.toArray).size = p.length ∧
+    ∀ j, ((List.range k).foldl (caStep p.toArray) p.toArray).getD j 0 =
+      if j < k then p.getD (p.getD j 0) 0 else p.getD j 0 := by
+  intro k
+  induction k with
+  | zero =>
+    intro _
+    refine ⟨by simp, ?_⟩
+    intro j
+    simp [Array.getD_eq_getD_getElem?, List.getD_eq_getElem?_getD]
+  | succ k ih =>
+    intro hk
+    obtain ⟨hs, hg⟩ := ih (by omega)
+    rw [List.range_succ, List.foldl_append]
+    simp only [List.foldl_cons, List.foldl_nil]
+    refine ⟨by rw [caStep_size, hs], ?_⟩
+    intro j
+    rw [caStep_getD _ _ _ _ (by omega)]
+    have hk' := hg k
+    simp only [Nat.lt_irrefl, if_false] at hk'
+    rw [hk']
+    by_cases hjk : j = k
+    · subst hjk
+      simp [Array.getD_eq_getD_getElem?, List.getD_eq_getElem?_getD]
+    · rw [if_neg hjk, hg j]
+      by_cases c : j < k
+      · have : j < k + 1 := by omega
+        simp [c, this]
+      · have : ¬ j < k + 1 := by omega
+        simp [c, this]
+
+theorem concatAliased_eq (p : List Nat) : Perm.concatAliased p = p.map fun k => p.getD k 0 := by
+  have hdef : Perm.concatAliased p = ((List.range p.length).foldl (caStep p.toArray) p.toArray).toList := rfl
+  rw [hdef]
+  obtain ⟨hs, hg⟩ := concatAliased_loop p p.length (Nat.le_refl _)
+  apply list_ext_getD
+  · rw [Array.length_toList, hs, List.length_map]
+  · intro m hm
+    rw [Array.length_toList, hs] at hm
+    have h1 := hg m
+    rw [if_pos hm] at h1
+    have h2 : ((List.range p.length).foldl (caStep p.toArray) p.toArray).toList.getD m 0 =
+        ((List.range p.length).foldl (caStep p.toArray) p.toArray).getD m 0 := by
+      simp [Array.getD_eq_getD_getElem?, List.getD_eq_getElem?_getD]
+    rw [h2, h1]
+    simp [List.getD_eq_getElem?_getD, hm]
+
+theorem self_concat_aliased {α : Type} [Inhabited α] (p : List Nat) (x : List α) (h : Perm.isBijection p = true)
+    (hx : x.length = p.length) :
+    Perm.concatAliased p = (p.map fun k => p.getD k 0) ∧
+    Perm.isBijection (Perm.concatAliased p) = true ∧
+    Perm.applyPerm (Perm.concatAliased p) x = Perm.applyPerm p (Perm.applyPerm p x) ∧
+    Perm.applyPermInv (Perm.concatAliased p) (Perm.applyPerm (Perm.concatAliased p) x) = x := by
+  have he := concatAliased_eq p
+  have hc := concat_composes p p x h h rfl hx
+  refine ⟨he, ?_, ?_, ?_⟩
+  · rw [he]; exact hc.1
+  · rw [he]; exact hc.2
+  · rw [he]
+    exact (applyPermInv_undoes _ hc.1 x (by simpa using hx)).1
+
 theorem random_ctor_bijection (s : List Nat) (hn : 0 < s.length)
     (hs : ∀ i, i + 1 < s.length → i ≤ s.getD i 0 ∧ s.getD i 0 < s.length) (hl : s.getD (s.length - 1) 0 = s.length - 1) :
     Perm.isBijection (Perm.permFromSwap s) = true := by
